@@ -2,6 +2,8 @@ package reqsim
 
 import (
 	"context"
+	"crypto/ed25519"
+	"encoding/json"
 	"errors"
 	"time"
 
@@ -146,4 +148,89 @@ func truthValid(k *world.Key, t time.Time) bool {
 // truthExpired: per the ledger the key is unknown or was expired at t.
 func truthExpired(k *world.Key, t time.Time) bool {
 	return k == nil || (!k.Current() && !t.Before(k.ExpiredAt))
+}
+
+// ---- the library's own fetchers over a simulated key client -------------------------
+
+// ringClient is the KeyClient behind the real DirectKeyFetcher /
+// PerspectiveKeyFetcher some runs give D's key ring instead of ledgerFetcher.
+// It answers with what the servers publish now; as a notary it may first hand
+// out the response it had cached from before the server's last rotation and
+// then the current one (a notary serves what it has), each countersigned.
+type ringClient struct {
+	f      *ledgerFetcher // mode and call counter are shared with the stub fetcher
+	notary *world.Server
+	stale  bool
+	probe  func(string)
+}
+
+func (c *ringClient) GetServerKeys(ctx context.Context, name spec.ServerName) (gmsl.ServerKeys, error) {
+	c.f.calls++
+	s := c.f.L.Servers[name]
+	if c.f.mode == fetchError || s == nil {
+		return gmsl.ServerKeys{}, errFetch
+	}
+	if c.f.mode == fetchEmpty {
+		return gmsl.ServerKeys{}, errors.New("sim: key server answered 404")
+	}
+	return s.KeyResponse(time.Now()), nil
+}
+
+func countersign(n *world.Server, sk gmsl.ServerKeys) gmsl.ServerKeys {
+	k := n.Current()
+	raw, err := gmsl.SignJSON(string(n.Name), k.ID, k.Priv, sk.Raw)
+	if err != nil {
+		panic(err)
+	}
+	var out gmsl.ServerKeys
+	if err := json.Unmarshal(raw, &out); err != nil {
+		panic(err)
+	}
+	return out
+}
+
+func (c *ringClient) LookupServerKeys(ctx context.Context, via spec.ServerName, reqs map[pair]spec.Timestamp) ([]gmsl.ServerKeys, error) {
+	c.f.calls++
+	switch c.f.mode {
+	case fetchError:
+		return nil, errFetch
+	case fetchEmpty:
+		return nil, nil
+	}
+	now := time.Now()
+	seen := map[spec.ServerName]bool{}
+	var out []gmsl.ServerKeys
+	for p := range reqs {
+		s := c.f.L.Servers[p.ServerName]
+		if s == nil || seen[p.ServerName] {
+			continue
+		}
+		seen[p.ServerName] = true
+		if c.stale {
+			// the last rotation, if any: the notary still has the response
+			// from just before it
+			var last time.Time
+			for _, k := range s.Keys {
+				if !k.Current() && k.ExpiredAt.After(last) && !k.ExpiredAt.After(now) {
+					last = k.ExpiredAt
+				}
+			}
+			if !last.IsZero() {
+				out = append(out, countersign(c.notary, s.KeyResponse(last.Add(-time.Second))))
+				c.probe("notary_serves_pre_rotation_response_first")
+			}
+		}
+		out = append(out, countersign(c.notary, s.KeyResponse(now)))
+	}
+	return out, nil
+}
+
+// realFetcher builds one of the library's fetchers over ringClient.
+func realFetcher(f *ledgerFetcher, notary *world.Server, perspective, stale bool, probe func(string)) gmsl.KeyFetcher {
+	c := &ringClient{f: f, notary: notary, stale: stale, probe: probe}
+	if perspective {
+		k := notary.Current()
+		return &gmsl.PerspectiveKeyFetcher{PerspectiveServerName: notary.Name, PerspectiveServerKeys: map[gmsl.KeyID]ed25519.PublicKey{k.ID: k.Pub}, Client: c}
+	}
+	return &gmsl.DirectKeyFetcher{Client: c, IsLocalServerName: func(spec.ServerName) bool { return false }}
 }
